@@ -1139,7 +1139,20 @@ void Handler::helpArgument( const string& help_arg_key, bool full)
    } // end if
 
    const detail::ArgumentKey  key( help_arg_key);
-   auto                       p_arg_hdl = mArguments.findArg( key);
+   // an argument with exactly this key wins, no matter if it is a sub-group
+   // argument or not; only then the key may be the abbreviation of a long
+   // argument
+   auto                       p_arg_hdl = mArguments.findArg( key, true);
+
+   if (p_arg_hdl == nullptr)
+   {
+      p_arg_hdl = mSubGroupArgs.findArg( key, true);
+   } // end if
+
+   if (p_arg_hdl == nullptr)
+   {
+      p_arg_hdl = mArguments.findArg( key);
+   } // end if
 
    if (p_arg_hdl == nullptr)
    {
